@@ -471,7 +471,7 @@ def stream_random(c, cls, n):
 
 GRID_QUICK = [
     {}, {"delta_theta_0": 0.5, "delta_theta_min": 0.125}, {"theta_start": 0.5, "delta_theta_0": 0.375, "delta_theta_min": 1 / 16},
-    {"delta_theta_0": 0.3, "delta_theta_min": 0.05},
+    {"delta_theta_0": 0.3, "delta_theta_min": 0.05}, {"theta_start": 0.1, "delta_theta_0": 0.35, "delta_theta_min": 0.03},
 ]
 
 
@@ -482,7 +482,9 @@ def grid_thorough():
             for dmin in (0.125, 1 / 32):
                 g.append({"theta_start": ts, "delta_theta_0": d0, "delta_theta_min": dmin})
     for ts, d0, dmin in ((0.0, 1.0, 0.01), (0.1, 0.3, 0.01), (0.0, 0.1, 0.01), (0.3, 0.7, 0.05), (0.0, 0.25, 0.001),
-                         (0.2, 0.2, 0.1), (-0.3, 0.3, 0.02), (0.9, 1.0, 0.01)):
+                         (0.2, 0.2, 0.1), (-0.3, 0.3, 0.02), (0.9, 1.0, 0.01),
+                         # decimal option sets whose sums stay clear of 1 (few near-ties, compared to 1e-12)
+                         (0.1, 0.35, 0.01), (0.0, 0.15, 0.02), (0.3, 0.45, 0.05), (-0.3, 0.7, 0.03), (0.05, 0.6, 0.07)):
         g.append({"theta_start": ts, "delta_theta_0": d0, "delta_theta_min": dmin})
     return g
 
@@ -565,7 +567,7 @@ def run(c):
     cls = make_stub_class()
     run_batch(c, cls, CORPUS, "corpus")
     legacy_probe(c)
-    stream_random(c, cls, c.n(1500, 8000))
+    stream_random(c, cls, c.n(2500, 8000))
     if c.big:
         n = stream_exhaustive(c, cls, grid_thorough(), 12)
         c.exhaustive = True
@@ -574,7 +576,7 @@ def run(c):
         n = stream_exhaustive(c, cls, GRID_QUICK, 9)
         c.exhaustive = False
         c.notes.append("all outcome sequences of length <= 9 for %d option sets enumerated (%d runs); " % (len(GRID_QUICK), n))
-    c18_real.stream_real(c, c.n(24, 160), oracle, compare, model_line)
+    c18_real.stream_real(c, c.n(40, 160), oracle, compare, model_line)
     c.programs = c.dist.get("real/programs", 0)
     c.notes.append("the unbounded claim (every outcome oracle, all options) is carried by the theorems; "
                    "the enumeration ties the model to the code on that sub-space.")
